@@ -7,6 +7,8 @@ d=/tmp/scratch/try-$id
 patch -s -p1 -d $d < /verif/seeded/$id/patch.diff || { echo "patch failed"; rm -rf $d; exit 2; }
 for c in "$@"; do
   echo "== $id vs $c"
+  cp /verif/evidence/$c.json /tmp/scratch/evidence-$c-$$.json 2>/dev/null  # evidence must describe runs against /repo, not a mutant
   (cd /verif && VERIF_REPO=$d ./check $c --budget $budget --workers ${WORKERS:-8} 2>&1 | grep -v "^KNOWN" | grep "VIOLATION\|quick:\|HARNESS: [a-z0-9]" | cut -c1-260 | tail -5)
+  [ -f /tmp/scratch/evidence-$c-$$.json ] && mv /tmp/scratch/evidence-$c-$$.json /verif/evidence/$c.json
 done
 rm -rf $d
